@@ -80,6 +80,13 @@ def corr_replay(n_quick, n_thorough):
     return run
 
 
+def corr_checkargs(n_quick, n_thorough):
+    def run(tier, seed):
+        import corr_checkargs as C
+        return C.run(seed, n_quick if tier == 'quick' else n_thorough)
+    return run
+
+
 CONV_FUNCS = ['normalize_bbox', 'denormalize_bbox', 'convert_bbox_to_dicaugment', 'convert_bbox_from_dicaugment',
               'check_bbox', 'convert_keypoint_to_dicaugment', 'convert_keypoint_from_dicaugment', 'check_keypoint',
               'angle_to_2pi_range', 'convert_bboxes_to_dicaugment', 'convert_bboxes_from_dicaugment',
@@ -370,6 +377,24 @@ PROPS['C19'] = {
                   'and image and boxes use the same clamped window. Explored: box sets touching the borders, sized variant, '
                   'keypoints, labels.',
     'level_note': 'Trusted: Coq kernel, translator (sampler back end), view model, exact-rational float model.',
+}
+
+PROPS['C08'] = {
+    'requires': ['check_bbox', 'check_keypoint'],
+    'corr': corr_multi(corr_checkargs(200, 3000), corr_fn('C08', ['check_bbox', 'check_keypoint'], 60, 1500)), 'search': 'C08',
+    'trusted_base': ['coq/model/CheckArgs.v is a hand-written model of Compose._check_args, tied to the code by '
+                     'harness/corr_checkargs.py (generated keyword arguments, shapes differing in one axis, malformed targets)',
+                     'harness/ctor_args.py transcribes the documented constructor domain of every exported transform by hand '
+                     '(specification); the documented image dtypes are read from the class docstrings'],
+    'assumptions': ['np.isclose tolerance of check_bbox as in lib/PyNum.v isclose'],
+    'level_text': 'Proved (rejection half): mismatched image / mask / masks shapes in ANY single axis raise ValueError, '
+                  'non-array images TypeError, float32 outside [0,1] ValueError, boxes without bbox_params ValueError (model of '
+                  '_check_args); check_bbox accepts only proper boxes inside the unit cube (up to isclose) and otherwise raises '
+                  'ValueError, check_keypoint accepts exactly the in-frame keypoints with angle in [0, 2 pi) (generated code). '
+                  'Explored (totality half, outside the model: NumPy / SciPy / OpenCV casting and kernels): every class x every '
+                  'documented constructor form x documented dtypes x HWD / HWDC x target sets runs and returns all targets; '
+                  'missing label fields, positional data and the other malformed calls raise the documented type.',
+    'level_note': 'Partial by nature: "runs to completion on every dtype" is not a statement about a model the proof assistant sees.',
 }
 
 NOT_CLAIMED = {}
